@@ -44,7 +44,15 @@ func RunUpf(c *hx.Ctx, prop string) {
 			}
 		}
 	}
-	for _, k := range cases {
+	// c10t9: work list; a case observed too early (see below) is appended again, at most three runs each
+	tries := make([]int, len(cases))
+	order := make([]int, len(cases))
+	for i := range order {
+		order[i] = i
+	}
+	for oi := 0; oi < len(order); oi++ {
+		ki := order[oi]
+		k := cases[ki]
 		cfg := dsx.Cfg{Route: "c", RetryOn: k.retryOn, N: k.n, LongGlobal: true}
 		reason := k.reason
 		fired := false
@@ -65,7 +73,14 @@ func RunUpf(c *hx.Ctx, prop string) {
 		f := px.New(px.Config{Clusters: []px.Cluster{{Name: "c", Hosts: 1}}, Routes: []v2.Router{px.Route("/", "c", opts...)}, Filters: []px.Filter{flt}})
 		ex := f.Request(px.H(":path", "/a", ":authority", "svc"), nil, nil)
 		a := ex.WaitAttempt(0)
+		if a == nil { // c10t9: no attempt within 400 ms: wait on while the process is not calm (a parked proxy stays `skipped`)
+			hx.PatientWait("upf first attempt", 400*time.Millisecond, 20*time.Second, nil, func() bool {
+				a = ex.WaitAttemptFor(0, 0)
+				return a != nil
+			})
+		}
 		if a == nil || a.Failed != "" {
+			c.Count("upf.skipped-no-attempt")
 			f.Close()
 			continue
 		}
@@ -79,6 +94,23 @@ func RunUpf(c *hx.Ctx, prop string) {
 			as[1].Respond(200, h1, b1, t1)
 			ex.WaitQuiescentFor(30 * time.Millisecond)
 			tail = ":R"
+		}
+		// c10t9: the two 30 ms windows above are quiescence windows (stretched by px with the observed overshoot of its own
+		// polls), not conditions: a worker that was not scheduled during one of them moves the trace afterwards (the retry
+		// after doRetry's 10 ms sleep, the answer to attempt 1). Confirm in a further window that nothing moves any more;
+		// a trace that still moved was observed too early: the case is run again (at most three times), then dropped
+		before, d0 := len(ex.Trace()), ex.Done()
+		ex.WaitQuiescentFor(30 * time.Millisecond)
+		if len(ex.Trace()) != before || ex.Done() != d0 {
+			ex.ForgetProv()
+			f.Close()
+			if tries[ki]++; tries[ki] < 3 {
+				c.Count("upf.skew.rerun")
+				order = append(order, ki)
+			} else {
+				c.Count("upf.skew.dropped")
+			}
+			continue
 		}
 		var tr []string
 		for _, t := range ex.Trace() {
